@@ -8,8 +8,8 @@ open NTV.PolyG NTV.PolyMod NTV.Res
 
 /-- the exactness flag of the subresultant gcd of pp(a) and its derivative: every division of the
 recurrence leaves no remainder (the Rust code discards nothing — its `/` is then the exact quotient).
-True by the theory of subresultants, which is not formalised here; it is the hypothesis of the C10
-theorems and is asserted on every explored case. -/
+True by the fundamental theorem of subresultants: proved below as `gcdExact_holds` for every non-zero
+canonical `a` (from `NTV.Res.resultantSmartGcd_flag`). -/
 def GcdExact (a : List Int) : Prop :=
   ∀ g ok, resultantSmartGcdE (contPP a).2 (differential (contPP a).2) = some (.ok (g, ok)) → ok = true
 
@@ -225,4 +225,53 @@ theorem Run.cofactor_one (R : Run a c fs g sq r) (ha : a ≠ []) (hca : Canon a)
   exact (pos_iff_pos_of_mul_pos this).mpr hpos
 
 end run
+end NTV.PolyZ
+
+/-! ### `GcdExact` is a theorem (fundamental theorem of subresultants, `resultantSmartGcd_flag`) -/
+namespace NTV.PolyZ
+open NTV.PolyG NTV.PolyMod NTV.Res
+
+/-- gcd(f, 0): the loop stops at once with the flag it was given -/
+theorem resultantSmartGcdE_nil_right_flag (f r : List Int) (ok : Bool)
+    (h : resultantSmartGcdE f [] = some (.ok (r, ok))) : ok = true := by
+  unfold resultantSmartGcdE at h
+  by_cases he : f.isEmpty
+  · simp only [he, ↓reduceIte, Option.some.injEq, Except.ok.injEq, Prod.mk.injEq] at h
+    exact h.2.symm
+  · simp only [he, Bool.false_eq_true, ↓reduceIte, bind, Except.bind, pure, Except.pure] at h
+    cases hc : Res.content f with
+    | error e => rw [hc] at h; simp at h
+    | ok cf =>
+      rw [hc] at h
+      have hc0 : Res.content ([] : List Int) = .ok (contPP ([] : List Int)).1 := by simp [Res.content]
+      have hp0 : ∀ d, Res.polyDiv ([] : List Int) d = .ok [] := by intro d; simp [Res.polyDiv]
+      simp only [hc0, hp0] at h
+      cases hp : Res.polyDiv f cf with
+      | error e => rw [hp] at h; simp at h
+      | ok f1 =>
+        rw [hp] at h
+        simp only [gcdLoop, List.isEmpty_nil, ↓reduceIte] at h
+        cases hc2 : Res.content f1 with
+        | error e => rw [hc2] at h; simp at h
+        | ok c2 =>
+          rw [hc2] at h
+          simp only [] at h
+          cases hp2 : Res.polyDiv f1 c2 with
+          | error e => rw [hp2] at h; simp at h
+          | ok p2 =>
+            rw [hp2] at h
+            simp only [Option.some.injEq, Except.ok.injEq, Prod.mk.injEq] at h
+            exact h.2.symm
+
+/-- **the exactness flag always holds**: for every non-zero canonical `a`, the subresultant gcd of pp(a) and
+pp(a)' performs only exact divisions (for a constant `a` the derivative is 0 and no division is made) -/
+theorem gcdExact_holds (a : List Int) (ha : a ≠ []) (hca : Canon a) : GcdExact a := by
+  intro g ok h
+  obtain ⟨_, _, _, s4⟩ := contPP_spec a ha hca
+  have hne := pp_ne_nil a ha hca
+  by_cases hd : differential (contPP a).2 = []
+  · rw [hd] at h
+    exact resultantSmartGcdE_nil_right_flag _ g ok h
+  · exact resultantSmartGcd_flag _ _ hne hd s4 (canon_differential _) g ok h
+
 end NTV.PolyZ
